@@ -207,9 +207,16 @@ def _call_in(v: Optional[ast.AST]) -> Optional[ast.Call]:
 
 
 class _Flattener:
-    def __init__(self, fn, mod):
+    def __init__(self, fn, mod, select=None):
         self.fn, self.mod = fn, mod
         self.count = 0
+        self.select = select  # optional predicate on the helper Function: inline only helpers it accepts
+
+    def _hof(self, call: ast.Call):
+        got = _helper_of(call, self.fn, self.mod)
+        if got is not None and self.select is not None and not self.select(got[0]):
+            return None
+        return got
 
     def block(self, stmts: List[ast.stmt], stack: Tuple[str, ...], depth: int) -> List[ast.stmt]:
         out: List[ast.stmt] = []
@@ -243,7 +250,7 @@ class _Flattener:
             and isinstance(tst.comparators[0], ast.Constant) and tst.comparators[0].value is None)
         if not is_test:
             return None
-        got = _helper_of(call, self.fn, self.mod)
+        got = self._hof(call)
         if got is None or not _inlinable(got[0], stack):
             return None
         h, bound = got
@@ -303,7 +310,7 @@ class _Flattener:
             while isinstance(te, ast.UnaryOp) and isinstance(te.op, ast.Not):
                 te, neg = te.operand, not neg
             if isinstance(te, ast.Call):
-                got0 = _helper_of(te, self.fn, self.mod)
+                got0 = self._hof(te)
                 if got0 is not None and _inlinable(got0[0], stack) and not isinstance(got0[0].node, ast.AsyncFunctionDef):
                     hb = [x for x in got0[0].node.body if not (isinstance(x, ast.Expr) and isinstance(x.value, ast.Constant))]
                     if not (len(hb) == 1 and isinstance(hb[0], ast.Return)):
@@ -325,7 +332,7 @@ class _Flattener:
         elif isinstance(s, ast.Return):
             call, kind = _call_in(s.value), "return"
         if call is not None:
-            got = _helper_of(call, self.fn, self.mod)
+            got = self._hof(call)
             if got is not None and _inlinable(got[0], stack):
                 h, bound = got
                 self.count += 1
@@ -365,7 +372,7 @@ class _Flattener:
                 scan(e.values[0])
                 return
             if isinstance(e, ast.Call) and e is not top:
-                got = _helper_of(e, me.fn, me.mod)
+                got = me._hof(e)
                 if got is not None and _inlinable(got[0], stack) and not isinstance(got[0].node, ast.AsyncFunctionDef):
                     body = [x for x in got[0].node.body if not (isinstance(x, ast.Expr) and isinstance(x.value, ast.Constant))]
                     if not (len(body) == 1 and isinstance(body[0], ast.Return)):
@@ -398,7 +405,7 @@ class _Flattener:
         class T(ast.NodeTransformer):
             def visit_Call(self, c: ast.Call) -> ast.AST:  # noqa: N802
                 self.generic_visit(c)
-                got = _helper_of(c, me.fn, me.mod)
+                got = me._hof(c)
                 if got is None:
                     return c
                 h, bound = got
@@ -441,13 +448,14 @@ class _Flattener:
         return s
 
 
-def flatten(fn, depth: int = MAX_DEPTH):
-    """A copy of Function `fn` whose node has local helper calls inlined (or `fn` itself when nothing was inlined)."""
+def flatten(fn, depth: int = MAX_DEPTH, select=None):
+    """A copy of Function `fn` whose node has local helper calls inlined (or `fn` itself when nothing was inlined).
+    `select(helper Function) -> bool` restricts which helpers are inlined."""
     from sa.model import Function, set_parents
 
     mod = fn.module
     node = clone(fn.node)
-    fl = _Flattener(fn, mod)
+    fl = _Flattener(fn, mod, select)
     node.body = fl.block(node.body, (fn.fq,), depth)
     if fl.count == 0:
         return fn
